@@ -281,6 +281,27 @@ def c_hq(t):
     if o == 'hpins':
         _arity(t, 3)
         return '(HHpins %s %s)' % (c_bool(t[1]), c_href(t[2]))
+    if o == 'ordered':
+        _arity(t, 5)
+        kind = _look({'hwires': 'OWires', 'hcables': 'OCables', 'hpins': 'OPins', 'hports': 'OPorts'}, t[1], 'ordered query')
+        return '(HOrdered %s %s %s %s)' % (kind, c_bool(t[2]), c_list([c_str(x) for x in t[3].split(';')]), c_href(t[4]))
+    if o == 'roots':
+        if len(t) < 7:
+            raise TokenError('short roots query')
+        kind = _look({'hwires': 'HKWire', 'hcables': 'HKCable', 'hpins': 'HKPin', 'hports': 'HKPort'}, t[1], 'roots query')
+        roots = []
+        for r in t[6:]:
+            if r[:1] == 'H':
+                roots.append('(RHref %s)' % c_href(r[1:]))
+            elif r[:1] == 'X':
+                roots.append('(RObj (QId %s))' % c_nat(r[1:], 'id'))
+            elif r[:1] == 'O' and len(r[1:].split('.')) == 2:
+                a, b = r[1:].split('.')
+                roots.append('(RObj (QOuter %s %s))' % (c_nat(a, 'id'), c_nat(b, 'id')))
+            else:
+                raise TokenError('bad root token %r' % r)
+        return '(HRoots %s %s %s %s %s %s)' % (kind, c_nat(t[2], 'id'), _look(SEL, t[3], 'selection'), c_bool(t[4]),
+                                               c_list([c_str(x) for x in t[5].split(';')]), c_list(roots))
     raise TokenError('unknown query kind %r' % o)
 
 
@@ -297,7 +318,7 @@ ENGINES = {
                fn='ir_case', elem='list op', item=c_op),
     'xform': dict(imports='From SV Require Import Base.Base IR.State IR.NS IR.Ops Xform.Clone Xform.Xform Extract.Digest.',
                   fn='x_case', elem='list xop', item=c_xop),
-    'hier': dict(imports='From SV Require Import Base.Base IR.State IR.NS IR.Ops Hier.Paths Hier.Enum Hier.Trace Extract.DigestHier.',
+    'hier': dict(imports='From SV Require Import Base.Base IR.State IR.NS IR.Ops Hier.Paths Hier.Enum Hier.Trace Hier.TraceRoots Extract.DigestHier.',
                  fn='hcase', elem='list hitem', item=c_hitem),
 }
 
@@ -555,6 +576,8 @@ def canon_q_answer(query_toks, line):
         return ('error', line)
     if line == 'FUEL':
         return [[0]]
+    if line == 'RAISES' and o == 'ordered':
+        return [[2]]
     if o == 'wf':
         m = re.fullmatch(r'inv1a=([01]) inv2a=([01]) kinds=([01]) acyclic=([01]) pinwire=([01]) standalone=([01])', line)
         if not m:
@@ -617,7 +640,7 @@ def sample_session(rec, k, rng):
         groups = collections.OrderedDict()
         for j in qidx:
             t = seg[j][0].split(' ')
-            groups.setdefault(' '.join(t[1:3]) if t[1] in ('enum', 'below') else t[1] + t[3] if t[1] in ('hwires', 'hcables') else t[1], []).append(j)
+            groups.setdefault(' '.join(t[1:3]) if t[1] in ('enum', 'below') else t[1] + t[3] if t[1] in ('hwires', 'hcables') else t[1] + t[2] if t[1] in ('roots', 'ordered') else t[1], []).append(j)
         order = list(groups.values())
         for g in order:
             rng.shuffle(g)
